@@ -10,16 +10,25 @@ PID = "C10"
 BINS = ["x_core"]
 RULE = ("every type without reference unit of the executor universe (Temperature, synthetic 2-unit and 5-unit types, single-unit type; "
         "thorough: + generated ones) x ALL ordered unit pairs (exhaustive) x amount pairs incl. EQUAL amounts in different units, zeros, "
-        "NaN/inf (f64) and random values; ==, !=, <, <=, >, >=, partial_cmp in both orders and +, -, / with per-operation panic capture; "
-        "cell = (backend,type,u,v,pair kind); non-trivial = different units")
+        "NaN/inf (f64) and random values; the same workload against a second executor build in which the library has no \"std\" feature; ==, !=, <, <=, >, >=, partial_cmp in both orders and +, -, / with per-operation panic capture; "
+        "cell = (backend,std|no_std,type,u,v,pair kind); non-trivial = different units")
 EXHAUSTIVE = True
+
+
+def prepare(backends):
+    env = cl.prepare(backends, BINS)
+    for b in backends:
+        env[b]["bins"]["x_core_nostd"] = fw.build_bins(b, ["x_core"], nostd=True)["x_core"]
+    return env
 
 
 def plan(env, tier, seed):
     n = 40 if tier == "quick" else 3000
     tasks = cl.split_tasks(env, lambda ty, e: e["kind"] in ("noref", "single"))
     for t in tasks:
-        t.update({"n": n, "seed": seed})
+        t.update({"n": n, "seed": seed, "binname": "x_core"})
+    for t in list(tasks):
+        tasks.append(dict(t, bin=env[t["backend"]]["bins"]["x_core_nostd"], binname="x_core_nostd", n=max(10, n // 4)))
     if tier == "thorough":
         import genuniverse
         gu = genuniverse.build(seed, "C10", 24, kinds=["noref", "noref", "single"])
@@ -34,7 +43,8 @@ def plan(env, tier, seed):
 def work(task):
     part = fw.Part()
     b, ty, ent = task["backend"], task["ty"], task["entry"]
-    rng = Rng("%s/C10/%s/%s" % (task["seed"], b, ty))
+    binname = task.get("binname", "x_core")
+    rng = Rng("%s/C10/%s/%s/%s" % (task["seed"], b, ty, binname))
     cases = []
     for (u, v) in cl.unit_pairs(ent):
         for i in range(task["n"]):
@@ -51,6 +61,8 @@ def work(task):
             if ent["kind"] == "noref":
                 reqs.append({"op": "cmp", "ty": ty, "x": x, "u": u, "y": y, "v": v})
             cases.append({"ty": ty, "u": u, "v": v, "x": x, "y": y, "kind": kind, "reqs": reqs})
+    for c in cases:
+        c["bin"] = binname
     fw.run_cases(part, task["bin"], cases, judge, {"backend": b, "ty": ty, "entry": ent, "module": "c10"})
     return part
 
@@ -60,12 +72,14 @@ def judge(part, case, resps, ctx):
     u, v = case["u"], case["v"]
     uu, vu = ent["units"][u], ent["units"][v]
     part.evals += 1
+    binname = case.get("bin", "x_core")
+    lib = "no_std" if binname.endswith("nostd") else "std"
 
     def viol(kind, text):
-        sig = {"backend": b, "type": ty, "u": uu["dbg"], "v": vu["dbg"], "kind": kind,
-               "class": {"kind": kind, "backend": b, "type": ty, "u": uu["dbg"], "v": vu["dbg"]}}
-        part.violation(sig, "C10 %s: %s %s a=%s[%s] b=%s[%s]: %s" % (kind, b, ty, case["x"], uu["dbg"], case["y"], vu["dbg"], text),
-                       {"module": "c10", "backend": b, "ty": ty, "case": case, "resps": resps})
+        sig = {"backend": b, "lib": lib, "type": ty, "u": uu["dbg"], "v": vu["dbg"], "kind": kind,
+               "class": {"kind": kind, "backend": b, "lib": lib, "type": ty, "u": uu["dbg"], "v": vu["dbg"]}}
+        part.violation(sig, "C10 %s: %s(%s) %s a=%s[%s] b=%s[%s]: %s" % (kind, b, lib, ty, case["x"], uu["dbg"], case["y"], vu["dbg"], text),
+                       {"module": "c10", "backend": b, "bin": binname, "ty": ty, "case": case, "resps": resps})
 
     ar = resps[0]
     if "panic" in ar:
@@ -117,7 +131,7 @@ def judge(part, case, resps, ctx):
                 if cr["ab"][k] != cr["nat"][k]:
                     viol("same_unit_cmp", "%s is %s, the amount type's own answer is %s" % (k, cr["ab"][k], cr["nat"][k]))
     if u != v:
-        part.cell(b, ty, uu["dbg"], vu["dbg"], case["kind"])
+        part.cell(b, lib, ty, uu["dbg"], vu["dbg"], case["kind"])
         part.sample({"backend": b, "type": ty, "requests": case["reqs"], "responses": resps,
                      "expectation": "different units: == false, unordered, + - / panic"}, limit=2)
     else:
